@@ -5,8 +5,8 @@ from harness.core import cbool, clist, cnat, copt, cq
 
 ID = "C14"
 MODEL_TARGETS = ["C14/Cases.vo"]
-PROOF_TARGETS = ["C14/PaaProof.vo", "C14/Proofs.vo", "C14/Refuted.vo"]
-OBLIGATION_FILES = ["C14/Refuted.v"]
+PROOF_TARGETS = ["C14/PaaProof.vo", "C14/Proofs.vo", "C14/History.vo"]
+OBLIGATION_FILES = []
 PROPS_FILE = "C14/Props.v"
 SHARD = 120
 PER_CASE_TIMEOUT = 60
@@ -40,8 +40,9 @@ MODELLED = [
     "tied by correspondence; the theorem covers shape / pointwise application only",
     "Imputer method='nearest': ties (equidistant neighbours) resolve to the EARLIER neighbour as scipy's "
     "interp1d(kind='nearest') does; method='random' and 'forecaster' are outside the closed-form claim",
-    "Imputer method='drift' (documented rule): trend fitted by OLS on the ffill/bfill-ed series, "
-    "missing positions take the trend value (the proposed patch notes/C14-fix-2.diff)",
+    "Imputer method='drift': PolynomialTrendForecaster(degree=1) is modelled as the least-squares "
+    "line over the positions 0..n-1 of the ffill/bfill-ed copy (proved to satisfy the normal "
+    "equations); sklearn's LinearRegression behind it is tied by correspondence only",
     "acf default n_lags=None is modelled as n-1 (statsmodels: min(int(10 log10 n), n-1), equal for "
     "n <= 11); fft=True computes the same function in floating point",
     "row transformers are exercised with test-double series transformers (affine, cumulative sum, "
@@ -593,8 +594,6 @@ def split_bounds(n, k):
 def oracle(case, out):
     k = case["kind"]
     cells = case.get("cells", "series")
-    if k in ("pad", "trunc", "interp") and cells == "array" and out.get("err") == "AttributeError":
-        return "array-cells-rejected: %s on a nested frame with ndarray cells raises AttributeError" % k
     if out.get("err") in ("AttributeError", "KeyError", "ZeroDivisionError"):
         return "%s-unrelated-error: %s" % (k, out["err"])
     p = fit = None
@@ -647,14 +646,7 @@ def oracle(case, out):
         else:
             bs = [tuple(x) for x in case["ivs"]]
         exp = [[row[0][a:b] for a, b in bs] for row in p]
-        f = _cmp_panel(k, out, exp)
-        if f and case["mode"] == "int" and "panel" in out:
-            drop = [[row[0][a:b - 1] for a, b in bs] for row in p]
-            if _cmp_panel(k, out, drop) is None:
-                return ("interval-drops-last-point: %d points / %d intervals: first cell has %d "
-                        "values, the intervals do not tile the series" % (
-                            n, kk, len(out["panel"][0][0])))
-        return f
+        return _cmp_panel(k, out, exp)
     if k == "slide":
         w = case["w"]
         exp = []
@@ -858,7 +850,7 @@ def impute_expected(method, value, z):
             core = [a + b * t if x is None else x for t, x in enumerate(z)]
     else:
         raise AssertionError(method)
-    return bf(ff(core)), bf(ff(z))
+    return bf(ff(core))
 
 
 def _oracle_impute(case, out):
@@ -876,17 +868,13 @@ def _oracle_impute(case, out):
     for t, (x, g) in enumerate(zip(z, got)):
         if x is not None and g != x:
             return "impute-observed-value-changed: position %d %s -> %s" % (t, x, g)
-    exp, ffbf = impute_expected(m, case["value"], z)
+    exp = impute_expected(m, case["value"], z)
 
     def same(a, b):
         return all((x is None and y is None) or (x is not None and y is not None and _close(x, y))
                    for x, y in zip(a, b))
     if same(got, exp):
         return None
-    if m == "drift" and same(got, ffbf):
-        return ("drift-fill-never-applies: gaps are forward/backward filled before the trend is "
-                "fitted; got %s, trend fill %s" % ([None if g is None else float(g) for g in got],
-                                                 [None if e is None else float(e) for e in exp]))
     t = next(i for i, (x, y) in enumerate(zip(got, exp))
              if not same([x], [y]))
     return "impute-%s-value: position %d is %s expected %s" % (
@@ -992,8 +980,6 @@ def _civs(ivs):
 
 def coq_case(case, out):
     k = case["kind"]
-    if k in ("pad", "trunc", "interp") and case.get("cells") == "array":
-        return None
     o = _cout(out)
     X = _cpanel(case["X"]) if "X" in case else None
     if k == "pad":
